@@ -83,6 +83,12 @@ package op
 //@        && !implements(request, "AuthRequest") && !implements(request, "TokenExchangeRequest")
 //@        ==> rotated(refreshToken, result0.RefreshToken)
 //@   ensures scope: err == nil ==> result0.Scope == request.GetScopes()
+//@   ensures code-consumed: err == nil && implements(request, "AuthRequest") ==> callres("op.AuthStorage.DeleteAuthRequest", 0) == nil
+//@        && callarg("op.AuthStorage.DeleteAuthRequest", 1) == as(request, "AuthRequest").GetID()
+//@   ensures same-request: err == nil ==> callarg("op.CreateIDToken", 2) == request && callarg("op.CreateIDToken", 5) == code
+//@        && (createAccessToken ==> callarg("op.CreateAccessToken", 1) == request && callarg("op.CreateIDToken", 4) == callres("op.CreateAccessToken", 0)
+//@                                && result0.AccessToken == callres("op.CreateAccessToken", 0))
+//@   ensures id-token-returned: err == nil ==> result0.IDToken == callres("op.CreateIDToken", 0)
 
 //@ func op.ParseRefreshTokenRequest
 //@   requires valid(r) && valid(decoder)
@@ -358,17 +364,20 @@ package op
 //@   requires !Resp_written[w] && valid(r) && valid(authorizer) && valid(w) && valid(authReq)
 //@   modifies Resp_written[w], Resp_status[w], Resp_location[w], Resp_body[w]
 //@   unframed
+//@   requires done: authReq.Done()
 //@   requires validated: validatedRedirect(authReq.GetRedirectURI())
 //@ func op.AuthResponseCode
 //@   requires !Resp_written[w] && valid(r) && valid(authorizer) && valid(w) && valid(authReq)
 //@   modifies Resp_written[w], Resp_status[w], Resp_location[w], Resp_body[w]
 //@   unframed
+//@   requires done: authReq.Done()
 //@   requires validated: validatedRedirect(authReq.GetRedirectURI())
 //@   ensures redirect-target: Resp_status[w] == 302 ==> responseURLFor(Resp_location[w], authReq.GetRedirectURI())
 //@ func op.AuthResponseToken
 //@   requires !Resp_written[w] && valid(r) && valid(authorizer) && valid(w) && valid(authReq) && valid(client)
 //@   modifies Resp_written[w], Resp_status[w], Resp_location[w], Resp_body[w]
 //@   unframed
+//@   requires done: authReq.Done()
 //@   requires validated: validatedRedirect(authReq.GetRedirectURI())
 //@   ensures redirect-target: Resp_status[w] == 302 ==> responseURLFor(Resp_location[w], authReq.GetRedirectURI())
 
@@ -377,3 +386,71 @@ package op
 //@ func op.LegacyServer.Authorize
 //@   requires valid(s) && valid(s.provider) && valid(r) && valid(r.Data) && valid(r.Client)
 //@   requires validated: validatedRedirect(r.Data.RedirectURI)
+
+// ---- C04: authorization code exchange. Post-conditions are written from the property statement.
+
+// codeOf(req, code) is *defined* as "the storage answered AuthRequestByCode(code) with req".
+//@ spec func codeOf(req AuthRequest, code string) bool
+//@ func op.AuthRequestByCode
+//@   requires valid(storage)
+//@   defines found: err == nil ==> codeOf(result0, code)
+//@   ensures ok: err == nil ==> valid(result0)
+//@   ensures fail-closed: err != nil ==> result0 == nil
+
+//@ func op.AuthorizeCodeChallenge
+//@   modifies nothing
+//@   ensures iff: result == nil <==> codeVerifier != "" && challengeMatches(challenge, codeVerifier)
+
+//@ func op.AuthorizeClientIDSecret
+//@   requires valid(storage)
+//@   defines authenticated: result == nil ==> authenticated(clientID)
+
+// pkceSatisfied: whenever the authorization request carried a challenge the presented verifier matches it.
+//@ spec func pkceSatisfied(req AuthRequest, verifier string) bool = req.GetCodeChallenge() != nil ==> verifier != "" && challengeMatches(req.GetCodeChallenge(), verifier)
+
+//@ func op.AuthorizeCodeClient
+//@   requires valid(tokenReq) && valid(exchanger)
+//@   ensures fail-closed: err != nil ==> request == nil && client == nil
+//@   ensures valid: err == nil ==> valid(request) && valid(client)
+//@   ensures code-issued: err == nil ==> codeOf(request, tokenReq.Code)
+//@   ensures pkce: err == nil ==> pkceSatisfied(request, tokenReq.CodeVerifier)
+//@   ensures pkce-public: err == nil && client.AuthMethod() == oidc.AuthMethodNone ==> request.GetCodeChallenge() != nil
+//@   ensures client-auth: err == nil ==> authenticated(client.GetID()) || client.AuthMethod() == oidc.AuthMethodNone
+//@   ensures registered-method: err == nil && tokenReq.ClientAssertionType != oidc.ClientAssertionTypeJWTAssertion ==> client.AuthMethod() != oidc.AuthMethodPrivateKeyJWT && client.GetID() == tokenReq.ClientID
+//@   ensures registered-method-jwt: err == nil && tokenReq.ClientAssertionType == oidc.ClientAssertionTypeJWTAssertion ==> client.AuthMethod() == oidc.AuthMethodPrivateKeyJWT
+
+//@ func op.ValidateAccessTokenRequest
+//@   requires valid(tokenReq) && valid(exchanger)
+//@   ensures fail-closed: err != nil ==> result0 == nil && result1 == nil
+//@   ensures valid: err == nil ==> valid(result0) && valid(result1)
+//@   ensures code-issued: err == nil ==> codeOf(result0, tokenReq.Code)
+//@   ensures client-binding: err == nil ==> result1.GetID() == result0.GetClientID()
+//@   ensures client-auth: err == nil ==> authenticated(result1.GetID()) || result1.AuthMethod() == oidc.AuthMethodNone
+//@   ensures grant: err == nil ==> grantRegistered(result1, oidc.GrantTypeCode)
+//@   ensures redirect-binding: err == nil ==> tokenReq.RedirectURI == result0.GetRedirectURI()
+//@   ensures pkce: err == nil ==> pkceSatisfied(result0, tokenReq.CodeVerifier)
+//@   ensures pkce-public: err == nil && result1.AuthMethod() == oidc.AuthMethodNone ==> result0.GetCodeChallenge() != nil
+
+// Token endpoint, legacy router: 200 only with tokens issued for the request the code belongs to.
+//@ func op.CodeExchange
+//@   requires !Resp_written[w] && valid(r) && valid(exchanger) && valid(w)
+//@   modifies Resp_written[w], Resp_status[w], Resp_location[w], Resp_body[w]
+//@   unframed
+//@   ensures responded: Resp_written[w]
+//@   ensures success: Resp_status[w] == 200 ==> callres("op.ValidateAccessTokenRequest", 2) == nil
+//@        && callres("op.ParseAccessTokenRequest", 0).Code != ""
+//@        && tokensIssued(as(Resp_body[w], "*oidc.AccessTokenResponse"), callres("op.ValidateAccessTokenRequest", 0),
+//@                        callres("op.ValidateAccessTokenRequest", 1), callres("op.ParseAccessTokenRequest", 0).Code, "")
+
+// Server interface path: the client was authenticated by webServer.withClient (C05); binding of the
+// code to that client, to the redirect URI and to the PKCE proof happens here.
+//@ func op.LegacyServer.CodeExchange
+//@   requires valid(s) && valid(s.provider) && valid(r) && valid(r.Data) && valid(r.Client)
+//@   ensures fail-closed: err != nil ==> result0 == nil
+//@   ensures code-issued: err == nil ==> codeOf(callres("op.AuthRequestByCode", 0), r.Data.Code)
+//@   ensures client-binding: err == nil ==> r.Client.GetID() == callres("op.AuthRequestByCode", 0).GetClientID()
+//@   ensures redirect-binding: err == nil ==> r.Data.RedirectURI == callres("op.AuthRequestByCode", 0).GetRedirectURI()
+//@   ensures pkce: err == nil ==> pkceSatisfied(callres("op.AuthRequestByCode", 0), r.Data.CodeVerifier)
+//@   ensures pkce-public: err == nil && r.Client.AuthMethod() == oidc.AuthMethodNone ==> callres("op.AuthRequestByCode", 0).GetCodeChallenge() != nil
+//@   ensures issued: err == nil ==> result0 != nil && tokensIssued(as(result0.Data, "*oidc.AccessTokenResponse"),
+//@        callres("op.AuthRequestByCode", 0), r.Client, r.Data.Code, "")
